@@ -158,14 +158,15 @@ def _check_main(ctx, res) -> None:
                         if isinstance(e, ast.Name):
                             alias[e.id] = st.value.id
     # prefixes used by the dynamic dispatch
-    def prefix(fn) -> Optional[str]:
+    def prefix(fn, cls) -> Optional[str]:
         for c in calls_in(fn):
-            if call_name(c) == "getattr" and len(c.args) >= 2 and isinstance(c.args[1], ast.BinOp) \
-                    and const_str(c.args[1].left) is not None:
-                return const_str(c.args[1].left)
+            if call_name(c) == "getattr" and len(c.args) >= 2 and isinstance(c.args[1], ast.BinOp):
+                k = idx.const_node(cls.unit.modname, c.args[1].left, cls)  # literal in place or a named class/module constant
+                if k is not None and isinstance(k.value, str):
+                    return k.value
         return None
 
-    wp, rp = prefix(wcall.node), prefix(r.methods["__call__"].node) if "__call__" in r.methods else None
+    wp, rp = prefix(wcall.node, w), prefix(r.methods["__call__"].node, r) if "__call__" in r.methods else None
     if not wp or not rp:
         raise AnalysisError("anchor=dynamic dispatch prefixes of ChangeToData/DataToChange not found")
 
@@ -280,32 +281,22 @@ def _check_main(ctx, res) -> None:
             res.add("R12.6", i.key.split("|", 1)[1], i.status == report.OK if i.status != report.UNDECIDED else None,
                     i.where, i.what, **i.detail)
 
-    # ---- R12.7 history writer order == loader index order
+    # ---- R12.7 history writer order == loader index order: decided by the abstract writer/loader comparison of
+    # history_order_rule (R12.12); R12.7 is its slot-index part
+    from .c18 import history_order_rule
+
+    tmp7 = report.Results("C12")
+    history_order_rule(ctx, tmp7, "R12.7")
+    swapped = [i for i in tmp7.instances if i.status == report.FAIL and ("rebuilt from slot" in i.what or "places of _load_history" in i.what)]
+    und = [i for i in tmp7.instances if i.status == report.UNDECIDED]
     hist = idx.need_class("rope.base.history.History")
-    aliases = common.property_aliases(hist)
-    wr, ld = hist.methods.get("write"), hist.methods.get("_load_history")
-    if not wr or not ld:
-        raise AnalysisError("anchor=History.write/_load_history not found")
-    worder = []
-    for c in calls_in(wr.node):
-        if isinstance(c.func, ast.Attribute) and c.func.attr == "append" and c.args:
-            attrs = [aliases.get(x.attr, x.attr) for x in ast.walk(c.args[0]) if is_self_attr(x)]
-            if attrs:
-                worder.append(attrs[0])
-    lpairs = []
-    for n in walk_local(ld.node):
-        if isinstance(n, ast.For) and isinstance(n.iter, ast.Subscript) and isinstance(n.iter.slice, ast.Constant):
-            for c in calls_in(n):
-                if isinstance(c.func, ast.Attribute) and c.func.attr == "append" and is_self_attr(c.func.value):
-                    lpairs.append((n.iter.slice.value, aliases.get(c.func.value.attr, c.func.value.attr)))
-    lorder = sorted(set(lpairs))
-    if len(worder) < 2 or len(lpairs) < 2:
-        res.undecided("R12.7", "History.write|_load_history", wr.where, "writer/loader shape not recognised")
+    ld = hist.methods["_load_history"]
+    if und:
+        res.undecided("R12.7", "History.write|_load_history", ld.where, und[0].what)
     else:
-        ok = lorder == sorted(enumerate(worder))
-        res.add("R12.7", "History.write|_load_history", ok, ld.where,
-                f"writer saves {worder}, loader restores (index, list) pairs {lorder}" if ok else
-                f"History.write saves lists in order {worder} but _load_history restores {lorder}: undo and redo lists are swapped or lost on reload")
+        res.add("R12.7", "History.write|_load_history", not swapped, swapped[0].where if swapped else ld.where,
+                "every saved slot is restored into the list it was written from" if not swapped else
+                f"{swapped[0].what}: undo and redo lists are swapped or lost on reload")
 
 
 def _serializer(ctx, res) -> None:
